@@ -3,10 +3,15 @@ CONSTANTS
   MaxTok = 3
   MaxDqInner = 2
   MaxExp = 2
-  TokSet = {"LIT","ESP","SQE","SQ","V","W","AT","STAR","DQE","DQL","QV","QAT","QSTAR","DQ"}
-  IfsSet = {1,2,3,5,6,10}
-  ShapeSet = {1,2,3,4,5,6,7,8}
+  TokSet = {"LIT","ESP","SQE","SQ","V","W","CS","QCS","AT","STAR","DQE","DQL","QV","QAT","QSTAR","DQ"}
+  IfsSet = {1,2,5,6,10}
+  ShapeSet = {1,2,3,5,6,7,8}
+  WShapeSet = {2,6,13}
+  MixShapeSet = {2,6,7}
+  MixParamSet = {1,2,4,6}
   ParamSet = {1,2,3,4,5,6}
+  CSMaxLen = 1
+  SimMinTok = 0
   RawMaxTok = 1
   MaxRaw = 5
   MaxRawCS = 3
